@@ -482,6 +482,17 @@ func (c hostileCase) run(viol func(sig, detail string), r *core.Run) {
 						nn, err := rs.Read(buf)
 						steps++
 						if err != nil {
+							// a caller that retries after an error (and one that
+							// repositions and retries) gets values or errors too
+							for k := 0; k < 3; k++ {
+								rs.Read(buf)
+								steps++
+							}
+							rs.Seek(0, io.SeekCurrent)
+							rs.Read(buf)
+							rs.Seek(0, io.SeekStart)
+							rs.Read(buf)
+							steps += 4
 							return
 						}
 						if nn == 0 && i > 8 {
